@@ -1080,7 +1080,7 @@ func genC10(g *G) {
 			l0 := 40 + 60*r.Float()       // the strip runs from +l0 through 180 to -l0
 			sh := (r.Float()*2 - 1) * 20  // both loops rotated about the z axis by sh degrees would move the crossing: keep |sh| small
 			A := []s2.Point{ll(-w, l0+sh), ll(-w, 130+sh), ll(-w, -150+sh), ll(-w, -l0+sh), ll(w, -l0+sh), ll(w, -150+sh), ll(w, 130+sh), ll(w, l0+sh)}
-			e := math.Pow(10, -13+10*r.Float())
+			e := []float64{3e-14, 6e-14, 1e-13, 3e-13, 1e-12, 1e-10, 1e-6}[r.Intn(7)] // degrees short of antipodal: the first ones make B's own bound full
 			q := l0 + 5 + (80-l0)*r.Float()*0.5
 			B := []s2.Point{ll(0.1*w, q+sh), ll(0, 180+sh), ll(-0.1*w, q-180+e+sh)}
 			if !c04Valid(A) || !c04Valid(B) || !c04LoopsDisjoint([][]s2.Point{A, B}) {
